@@ -67,6 +67,8 @@ def kinds():
       'list2': K('list2', 2, False, list),
       'dict1': K('dict1', 1, False, lambda v: {'k': v[0]}),
       'tuple1': K('tuple1', 1, False, tuple),
+      'nt': K('nt', 2, False, lambda v: N.Pair(*v)),
+      'ntsub': K('ntsub', 2, False, lambda v: N.PairSub(*v)),
   }
 
 
@@ -84,8 +86,10 @@ TAGS = {'TagA': N.TagA, 'TagB': N.TagB, 'TagC': N.TagC}
 
 def bounds(tier):
   if tier == 'quick':
-    return dict(families=[[FULL, 2, 1], [SMALL, 3, 1]])
+    return dict(families=[[FULL, 2, 1], [SMALL, 3, 1],
+                          [['cBase', 'pMid', 'nt', 'ntsub'], 3, 1]])
   return dict(families=[[FULL, 2, 1], [SMALL + ['cfn', 'dict1'], 3, 1],
+                        [['cBase', 'pMid', 'nt', 'ntsub', 'list2'], 3, 1],
                         [['cBase', 'cLeaf', 'list2'], 4, 1]])
 
 
@@ -186,6 +190,8 @@ def substitute(v, match, repl, memo):
     out = [substitute(a, match, repl, memo) for a in v]
   elif type(v) is tuple:
     out = tuple(substitute(a, match, repl, memo) for a in v)
+  elif isinstance(v, tuple) and hasattr(v, '_fields'):
+    out = type(v)(*[substitute(a, match, repl, memo) for a in v])
   elif type(v) is dict:
     out = {k: substitute(a, match, repl, memo) for k, a in v.items()}
   else:
@@ -455,7 +461,13 @@ def run_unit(unit, tier, seed):
     for tname in TARGETS:
       for sub in (True, False):
         for bname in BTYPES:
-          check_node_selection(shape, tname, sub, bname, res)
+          try:
+            check_node_selection(shape, tname, sub, bname, res)
+          except RecursionError:
+            case = {'shape': shape, 'fn_or_cls': tname,
+                    'match_subclasses': sub, 'buildable_type': bname}
+            res.violation('C15/selection-operation-recursed-forever',
+                          f'{case}', case)
     check_tag_selection(shape, res)
     if idx % 997 == 0:
       res.sample({'shape': shape, 'config': repr(make(shape))[:160]})
